@@ -183,6 +183,7 @@ PROPS = {
             "InstrFormat::read_instr of MsgHooks, InstrFormat06, InstrFormat07, StdHooks06, StdHooks10, OldeEclHooks, TimelineFormat06, "
             "TimelineFormat08, ModernEclHooks: panic-freedom on arbitrary header bytes",
             "LanguageHooks::decode_label (default, StdHooks06, OldeEclHooks, ModernEclHooks): panic-freedom on arbitrary jump arguments",
+            "std read_quad, anm FileFormat::read_header (both layouts): panic-freedom on arbitrary bytes",
         ],
         "unverified": [
             "EVERYTHING ELSE the property covers: file-level readers (read_anm / read_entry / read_texture, read_std, read_msg, "
